@@ -356,6 +356,8 @@ func c19(r *Run) {
 	// the close-callback list: registration is one step and links before it publishes; the slot is touched by a closer only
 	// once it owns the teardown (C05)
 	r.borrow([]string{"C05.R5:register-is-one-step", "C05.R5:node-linked-before-published", "C05.R12:detach-after-lock"}, "C05.R", "C19.R2.c05.", func() { c05(r) })
+	// a slot is rewritten only after the poller left it (C10.R3)
+	r.borrow([]string{"C10.R3:freeable-waits-before-reset", "C10.R3:freeable-reset-before-queue"}, "C10.R3", "C19.R2.c10", func() { c10(r) })
 	// connection.maxSize / bookSize: poller callbacks, Release under the slot token, init
 	{
 		ro := r.roles()
